@@ -186,6 +186,9 @@ def rsa_cases(rng, tier, pad, bits_list):
                 muts += msg_muts(rng, m, 1 if quick else 4)[: (3 if quick else 10)]
                 if pad == "pss" and (j < 2 or not quick):
                     muts.append("emtop")
+                if pad == "pkcs1" and flag == 0 and k == 61:
+                    # k = tLen + 10: no valid signature exists; keep this class apart from the representative-range mutations
+                    muts = [x for x in muts if x not in ("s+N", "zp:1", "zp:3", "lz")]
                 out.append("rsa %d %s %d %s %s" % (bits, kseed, flag, hx(m), " ".join(muts)))
     return out
 
